@@ -28,6 +28,16 @@ impl Driven for D {
          _ => panic!("verif harness: unknown relation {}", rel),
       }
    }
+   fn clear(&mut self, rel: &str) {
+      match rel {
+         "score" => { self.0.score = Default::default(); },
+         "entry" => { self.0.entry = Default::default(); },
+         "level" => { self.0.level = Default::default(); },
+         "winner" => { self.0.winner = Default::default(); },
+         "sized" => { self.0.sized = Default::default(); },
+         _ => panic!("verif harness: unknown relation {}", rel),
+      }
+   }
    fn run(&mut self) { self.0.run(); }
    fn dump(&self) -> Value {
       let mut m: Vec<(String, Value)> = vec![];
